@@ -294,7 +294,7 @@ class Scenario:
 
 
 def gen_scenario(rng, max_reqs=3, max_pairs=3, small=False, malformed=False, mixed_roles=False, faults=False,
-                 one_comm=False, per_link=False, two_remotes=False):
+                 one_comm=False, per_link=False, two_remotes=False, two_apps=False):
     """Well-formed scenarios (malformed=False) never make the executor raise: subroutines of one
     application own disjoint virtual qubit ids, a request's qubits are freed before a later request of the
     same subroutine reuses them, response types match the request type, result arrays are long enough.
@@ -315,7 +315,13 @@ def gen_scenario(rng, max_reqs=3, max_pairs=3, small=False, malformed=False, mix
                        max(2, max_reqs) if (mixed_roles or two_remotes) else max_reqs)
     nsubs = 1 if small else rng.choice([1, 1, 2, 2, 3])
     nsubs = min(nsubs, nreq)
+    if two_apps:
+        # application life-cycle scenarios: two applications on the node, at least one subroutine each
+        napps, nreq = 2, max(nreq, 2)
+        nsubs = max(2, min(nsubs, nreq))
     sub_app = [rng.randrange(napps) for _ in range(nsubs)]
+    if two_apps:
+        sub_app[0], sub_app[1] = 0, 1
     for a in range(napps):
         k = max(1, sub_app.count(a))
         sc.apps[a] = rng.choice([2, 3, 4]) if k == 1 else rng.choice([2, 3]) * k
@@ -517,7 +523,7 @@ def _final_wait(sp, req, rng, free=None):
 # ------------------------------------------------------------------ schedules
 
 
-def random_schedule(sc, rng, early=0):
+def random_schedule(sc, rng, early=0, stops=False):
     """tokens: ("s", sub index) / ("d", response index) / ("p",). Subroutines of one application are
     switched only while the running one sits in a wait (or has ended / not started)."""
     nsteps = {i: len(sp.lines) + 1 for i, sp in enumerate(sc.subs)}    # +1: the start step
@@ -540,6 +546,13 @@ def random_schedule(sc, rng, early=0):
             toks.append(("s", rng.randrange(len(sc.subs))))
     toks += [("d", i) for i in pending_d]
     toks += [("p",)] + [("s", i) for i in range(len(sc.subs)) for _ in range(6)]
+    if stops:
+        # application life cycle: stop_application at arbitrary moments (enabled, in well-formed scenarios,
+        # once every subroutine of the application has ended), also while responses are parked for others
+        for app in sc.apps:
+            for _ in range(4):
+                toks.insert(rng.randrange(len(toks) // 3, len(toks) + 1), ("x", app))
+        toks += [("p",)] + [("s", i) for i in range(len(sc.subs)) for _ in range(3)]
     return toks
 
 
@@ -975,6 +988,10 @@ class Replayer:
                         ex.network_stack.fail_next = act["where"]
                         act = {"a": "rejected"}
                         rejected = True
+                    if act["a"] == "nop" and sp.app not in ex._qubit_unit_modules:
+                        # a `set` of a stopped application raises (KeyError on its register file); for the
+                        # bookkeeping model: any instruction that needs the application
+                        act = {"a": "wait", "kind": "single", "addr": 0, "lo": 0, "hi": 0}
                     if act["a"] != "nop":
                         act["sub"] = sid[i]
                     acts.append(act)
@@ -1012,6 +1029,18 @@ class Replayer:
                         if acts[-1]["a"] != "endsub":
                             acts.append({"a": "endsub", "sub": sid[i]})
                         current[sp.app] = None
+            elif tok[0] == "x":
+                app = tok[1]
+                if app not in ex._qubit_unit_modules:
+                    return
+                if not sc.malformed and any(sp.app == app and state.get(i) != "done"
+                                            for i, sp in enumerate(sc.subs)):
+                    return      # well-formed: an application is stopped after its subroutines have ended
+                acts.append({"a": "stopapp", "app": app})
+                cacts.append({"a": "stop", "app": app})
+                out = ex.stop_application(app)
+                if out is not None:
+                    list(out)
             elif tok[0] == "d":
                 r = sc.resps[tok[1]]
                 if r.uid in self.uid2idx:
@@ -1246,6 +1275,19 @@ def canon_request(req):
     return out
 
 
+BOUNDARY_VALUES = [0, 1, 2 ** 31 - 1, 2 ** 31, 2 ** 32 - 1, 2 ** 32, 5 * 10 ** 9, 2 ** 63 - 1]
+
+
+def boundary(rng, small=1 << 20):
+    """a response field value: value-range classes (around 2^31, 2^32, 5 s in ns, 2^63-1) or a small number"""
+    from netqasm.runtime.settings import get_is_using_hardware
+    if get_is_using_hardware():
+        # with the process-wide hardware flag on, array cells are checked to fit 32 bits (OverflowError
+        # otherwise, by design): stay inside
+        return rng.choice([0, 1, 2 ** 31 - 1]) if rng.random() < 0.5 else rng.randrange(small)
+    return rng.choice(BOUNDARY_VALUES) if rng.random() < 0.5 else rng.randrange(small)
+
+
 def make_responses(c, rng, role):
     """scripted responses with arbitrary field values for the request of case c"""
     keep = c["tp"] == "K" or (c["tp"] == "R" and role == "recv")
@@ -1254,13 +1296,144 @@ def make_responses(c, rng, role):
         rem = c.get("remote", 1)
         r = RespSpec(k, "K" if keep else "M", rem, purpose_of(rem, c["socket"]), 1 if role == "recv" else 0,
                      50 + k, rng)
-        r.seq = rng.randrange(1 << 16)
-        r.goodness = rng.randrange(1 << 20)
-        r.gtime = rng.randrange(1 << 20)
-        r.cid = rng.randrange(1 << 16)
+        r.seq = boundary(rng, 1 << 16)
+        r.goodness = boundary(rng)
+        r.gtime = boundary(rng)
+        r.cid = boundary(rng, 1 << 16)
+        # (floats are not legal here although qlink-interface types `goodness` as float: NetQASM arrays hold
+        # integers and `Future.value` raises "future value 0.5 is not an int or None" — observation)
         r.form10 = rng.random() < 0.4
         r.bellenum = rng.random() < 0.5
         out.append(r)
+    return out
+
+
+def create_kwargs(c):
+    kw = {}
+    if c["tp"] in ("M", "R"):
+        if c["basisL"] is not None:
+            kw["basis_local"] = BE.EprMeasBasis(c["basisL"])
+        elif c["rotL"] != [0, 0, 0]:
+            kw["rotations_local"] = tuple(c["rotL"])
+        if c["rbl"] is not None:
+            kw["random_basis_local"] = RandomBasis(c["rbl"])
+    if c["tp"] == "M":
+        if c["basisR"] is not None:
+            kw["basis_remote"] = BE.EprMeasBasis(c["basisR"])
+        elif c["rotR"] != [0, 0, 0]:
+            kw["rotations_remote"] = tuple(c["rotR"])
+        if c["rbr"] is not None:
+            kw["random_basis_remote"] = RandomBasis(c["rbr"])
+    return kw
+
+
+def do_create_call(sock, c):
+    """one create call of the EPRSocket API as described by case `c` -> (qubits or None, handles or None)"""
+    tu = TimeUnit(c["time_unit"])
+    kw = create_kwargs(c)
+    qubits = handles = None
+    if c["api"] == "generic" and c["tp"] != "R" or (c["api"] == "generic" and c["rbl"] is None
+                                                     and c["rotL"] == [0, 0, 0]):
+        logging.disable(logging.CRITICAL)
+        res = sock.create(number=c["number"], tp=TP[c["tp"]], time_unit=tu, max_time=c["max_time"], **kw)
+        if c["tp"] == "K":
+            qubits = res
+        else:
+            handles = res
+    elif c["tp"] == "K":
+        qubits, handles = sock.create_keep_with_info(number=c["number"], time_unit=tu, max_time=c["max_time"])
+    elif c["tp"] == "M":
+        handles = sock.create_measure(number=c["number"], time_unit=tu, max_time=c["max_time"], **kw)
+    else:
+        handles = sock.create_rsp(number=c["number"], time_unit=tu, max_time=c["max_time"], **kw)
+    return qubits, handles
+
+
+# ---- several requests in ONE subroutine, differing in exactly one argument
+
+VARY = ["number", "time_unit", "max_time", "rotL", "rotR", "basisL", "basisR", "rbl", "rbr", "tp"]
+
+
+def gen_pair_case(rng):
+    """2-3 create calls without a flush in between: the second differs from the first in exactly one
+    argument (each argument in turn), an optional third repeats the first."""
+    c0 = gen_request_case(rng)
+    c0["api"] = "specific"
+    c0["number"] = rng.randint(1, 2)
+    if rng.random() < 0.6:
+        c0["max_time"] = rng.randint(1, 50)       # so that the time unit is transmitted
+    c1 = dict(c0, rotL=list(c0["rotL"]), rotR=list(c0["rotR"]))
+    applicable = ["number", "time_unit", "max_time", "tp"]
+    if c0["tp"] in ("M", "R"):
+        applicable += ["rotL", "basisL", "rbl"]
+    if c0["tp"] == "M":
+        applicable += ["rotR", "basisR", "rbr"]
+    f = rng.choice(applicable)
+    if f == "number":
+        c1["number"] = 3 - c0["number"]
+    elif f == "time_unit":
+        c1["time_unit"] = (c0["time_unit"] + rng.choice([1, 2])) % 3
+        c0["max_time"] = c1["max_time"] = max(1, c0["max_time"])
+    elif f == "max_time":
+        c1["max_time"] = c0["max_time"] + rng.randint(1, 9)
+    elif f in ("rotL", "rotR"):
+        c1["basisL" if f == "rotL" else "basisR"] = None
+        c0["basisL" if f == "rotL" else "basisR"] = None
+        c1[f] = [(x + rng.randint(1, 5)) % 32 for x in c0[f]]
+        if c1[f] == [0, 0, 0]:
+            c1[f] = [1, 2, 3]
+    elif f in ("basisL", "basisR"):
+        cur = c0[f]
+        c1[f] = rng.choice([b for b in range(6) if b != cur])
+    elif f in ("rbl", "rbr"):
+        cur = c0[f]
+        c1[f] = rng.choice([b for b in [None, 0, 1, 2, 3] if b != cur])
+    elif f == "tp":
+        c1["tp"] = {"K": "M", "M": "K", "R": "M"}[c0["tp"]]
+        for k in ("rbl", "rbr", "basisL", "basisR"):
+            c0[k] = c1[k] = None
+        c0["rotL"] = c1["rotL"] = [0, 0, 0]
+        c0["rotR"] = c1["rotR"] = [0, 0, 0]
+    cases = [c0, c1]
+    if rng.random() < 0.4:
+        cases.append(dict(c0, rotL=list(c0["rotL"]), rotR=list(c0["rotR"])))
+    if rng.random() < 0.3:
+        cases.reverse()
+    return {"cases": cases, "varied": f, "rseed": rng.randrange(1 << 30)}
+
+
+def run_pair_case(pc):
+    """-> {"raised", "stuck", "requests": canonical requests received by the stack, in order}"""
+    import random as _random
+    rrng = _random.Random(pc["rseed"])
+    ex = fresh_world()
+    cases = pc["cases"]
+    todo = []
+    for c in cases:
+        todo += make_responses(c, rrng, "create")
+    for k, r in enumerate(todo):
+        r.phys = 50 + k
+
+    def responder(ex_):
+        if not todo:
+            return False
+        ex_._handle_epr_response(todo.pop(0).real())
+        return True
+
+    c0 = cases[0]
+    sock = EPRSocket(REMOTE_NAMES[c0.get("remote", 1)], epr_socket_id=c0["socket"],
+                     remote_epr_socket_id=c0["remote_socket"])
+    conn = InProcConnection(ex, responder, epr_sockets=[sock], max_qubits=8)
+    out = {"raised": None, "stuck": False, "requests": []}
+    try:
+        for c in cases:
+            do_create_call(sock, c)
+        conn.flush()
+    except Exception as e:
+        out["raised"] = "%s: %s" % (type(e).__name__, e)
+        return out
+    out["stuck"] = conn.stuck
+    out["requests"] = [canon_request(r) for r in ex.network_stack.requests]
     return out
 
 
@@ -1299,6 +1472,8 @@ def run_sdk_case(c, rng, role="create"):
     handles = None
     qubits = None
     if role == "create":
+        qubits, handles = do_create_call(sock, c)
+    elif False:
         if c["api"] == "generic" and c["tp"] != "R" or (c["api"] == "generic" and c["rbl"] is None
                                                          and c["rotL"] == [0, 0, 0]):
             logging.disable(logging.CRITICAL)
@@ -1422,9 +1597,9 @@ def run_program_case(pc):
             rem, lid = sockdefs[c["socket"]]
             r = RespSpec(idx, "K" if keep else "M", rem, purpose_of(rem, lid), 1 if c["role"] == "recv" else 0,
                          60 + idx, rrng)
-            r.seq = rrng.randrange(1 << 16)
-            r.goodness = rrng.randrange(1 << 20)
-            r.gtime = rrng.randrange(1 << 20)
+            r.seq = boundary(rrng, 1 << 16)
+            r.goodness = boundary(rrng)
+            r.gtime = boundary(rrng)
             r.form10 = rrng.random() < 0.4
             r.bellenum = rrng.random() < 0.5
             resps[idx] = r
@@ -1578,9 +1753,9 @@ def run_hw_case(c, pair_of_handle=None):
         r = RespSpec(k, "K" if keep else "M", 1, purpose_of(1, 0), 1 if c["role"] == "recv" else 0, PHYS0 + k, rrng)
         r.form10 = rrng.random() < 0.3
         r.seq = 100 + k
-        r.goodness = rrng.randrange(1 << 20)
-        r.gtime = rrng.randrange(1 << 20)
-        r.cid = rrng.randrange(1 << 16)
+        r.goodness = boundary(rrng)
+        r.gtime = boundary(rrng)
+        r.cid = boundary(rrng, 1 << 16)
         resps.append(r)
     todo = list(resps)
 
@@ -1695,7 +1870,7 @@ def run_reuse_case(c):
             for _ in range(ph["number"]):
                 r = RespSpec(uid, "K" if keep else "M", ph["remote"], purpose_of(ph["remote"], c["socket"]),
                              1 if ph["role"] == "recv" else 0, 70 + uid, rrng)
-                r.goodness = rrng.randrange(1 << 20)
+                r.goodness = boundary(rrng)
                 r.form10 = rrng.random() < 0.3
                 resps.append(r)
                 uid += 1
